@@ -324,9 +324,12 @@ func genScenario(e *env, r *rng, id string, withFaultyPre bool) scenario {
 	case 2:
 		s.User = true
 	case 3:
-		s.Path = pick(r, []string{"custom/skills", "./x", "a/../b", "deep/er/still/deeper", "."})
+		s.Path = pick(r, []string{"custom/skills", "./x", "a/../b", "deep/er/still/deeper", ".",
+			// names the installer itself uses, as path elements of the user's choice
+			e.skillDir, "x/" + e.skillDir, e.skillDir + "/" + e.skillDir, "references", "skills/SKILL.md", ".claude/skills"})
 	case 4:
-		s.Path = pick(r, []string{"/opt/skills", "/work/proj/.claude/skills", "/x/y/", "/home/u/.config/z"})
+		s.Path = pick(r, []string{"/opt/skills", "/work/proj/.claude/skills", "/x/y/", "/home/u/.config/z",
+			"/opt/" + e.skillDir, "/opt/" + e.skillDir + "/", "/srv/references"})
 	case 5:
 		s.Path = pick(r, []string{"rel", "/abs/p"})
 		s.User = true
